@@ -1442,6 +1442,17 @@ def rule_N7(ctx):
     members = [f for f in fors if f is not f2 and any(x is f for x in ast.walk(f2))]
     grouping = [f for f in fors if f is not f2 and f not in members and any(
         isinstance(c, ast.Call) and isinstance(c.func, ast.Attribute) and c.func.attr in ("append", "setdefault") and gdict in norm(c) for c in ast.walk(f))]
+    if not grouping:
+        # groups built by itertools.groupby: only *adjacent* equal keys form a group, and a dict built from the result keeps the last
+        # run of each key - unless the input was sorted by the same key first
+        for a_ in own_nodes(fn):
+            if isinstance(a_, (ast.Assign, ast.AnnAssign)) and a_.value is not None and norm(a_.targets[0] if isinstance(a_, ast.Assign) else a_.target) == gdict:
+                gb = [c for c in ast.walk(a_.value) if isinstance(c, ast.Call) and norm(c.func).split(".")[-1] == "groupby" and c.args]
+                if gb and not (isinstance(gb[0].args[0], ast.Call) and norm(gb[0].args[0].func) == "sorted"):
+                    ctx.ob("N7", a_, "siblings with the same sanitised name form one group wherever they stand in the directory", False,
+                           f"`{norm(gb[0])[:80]}` groups adjacent equal names only: a name that recurs after another one replaces the earlier group and is "
+                           "never numbered apart", inst="grouping-whole-level")
+                    return
     if len(members) != 1 or len(grouping) != 1:
         raise AnalysisError("N7", where(fn), f"expected one grouping loop and one member loop, found {len(grouping)} / {len(members)}")
     f1, f3 = grouping[0], members[0]
